@@ -495,7 +495,7 @@ func ParseContracts(path string) (*Contracts, error) {
 					curF.Assigns = append(curF.Assigns, AssignSpec{Field: "**", Text: a})
 					continue
 				}
-				if (strings.HasPrefix(a, "list(") || strings.HasPrefix(a, "map(") || strings.HasPrefix(a, "chan(") || strings.HasPrefix(a, "cell(") || strings.HasPrefix(a, "elems(")) && strings.HasSuffix(a, ")") {
+				if (strings.HasPrefix(a, "list(") || strings.HasPrefix(a, "map(") || strings.HasPrefix(a, "chan(") || strings.HasPrefix(a, "cell(") || strings.HasPrefix(a, "elems(") || strings.HasPrefix(a, "cancel(") || strings.HasPrefix(a, "rcancelled(") || strings.HasPrefix(a, "rclosed(")) && strings.HasSuffix(a, ")") {
 					kind := a[:strings.Index(a, "(")]
 					e, err := ParseExpr(a[len(kind)+1 : len(a)-1])
 					if err != nil {
